@@ -38,7 +38,8 @@ pub struct Scn {
 
 pub fn gen(rng: &mut Rng) -> Scn {
     let nkeys = rng.range(2, 5) as u32;
-    let max_size = rng.range(1, 4) as u32;
+    // u32::MAX stands for usize::MAX ("unbounded" written as a size)
+    let max_size = if rng.chance(1, 12) { u32::MAX } else { rng.range(1, 4) as u32 };
     // u64::MAX stands for Duration::MAX ("never expires" written as a TTL)
     let ttl_ms = *rng.pick(&[None, None, None, Some(20u64), Some(20), Some(20), Some(200), Some(200), Some(u64::MAX)]);
     let n = rng.range(20, 120) as usize;
@@ -73,7 +74,7 @@ pub fn gen(rng: &mut Rng) -> Scn {
 pub fn valid(s: &Scn) -> bool {
     s.policy <= 2
         && s.max_size >= 1
-        && s.max_size <= 6
+        && (s.max_size <= 6 || s.max_size == u32::MAX)
         && s.ttl_ms.map(|t| (t >= 1 && t <= 1000) || t == u64::MAX).unwrap_or(true)
         && !s.ops.is_empty()
         && s.ops.len() <= 140
@@ -257,13 +258,16 @@ pub fn run(s: &Scn, ctx: &mut RunCtx) -> RunOutput {
             }};
         }
         if scn.shared {
-            let mut b = SharedCacheLayer::<Req, CKey, crate::inner::Resp>::builder().max_size(scn.max_size as usize).eviction_policy(policy).key_extractor(|r: &Req| CKey(r.key));
+            let mut b = SharedCacheLayer::<Req, CKey, crate::inner::Resp>::builder().max_size(count(scn.max_size)).eviction_policy(policy).key_extractor(|r: &Req| CKey(r.key));
             if let Some(t) = scn.ttl_ms {
                 b = b.ttl(if t == u64::MAX { Duration::MAX } else { Duration::from_millis(t) });
             }
-            let layer = b.build();
-            let s0 = layer.layer(SimInner::new(0));
-            let s1 = layer.layer(SimInner::new(1));
+            let Some((s0, s1)) = build_guarded("C10.miss_calls_inner", &format!("a shared cache with max_size={} policy {}", count(scn.max_size), scn.policy), || {
+                let layer = b.build();
+                (layer.layer(SimInner::new(0)), layer.layer(SimInner::new(1)))
+            }) else {
+                return vec![];
+            };
             for (i, o) in scn.ops.iter().enumerate() {
                 at += o.gap_ms;
                 match o.via {
@@ -273,12 +277,13 @@ pub fn run(s: &Scn, ctx: &mut RunCtx) -> RunOutput {
                 }
             }
         } else {
-            let mut b = CacheLayer::<Req, CKey>::builder().max_size(scn.max_size as usize).eviction_policy(policy).key_extractor(|r: &Req| CKey(r.key));
+            let mut b = CacheLayer::<Req, CKey>::builder().max_size(count(scn.max_size)).eviction_policy(policy).key_extractor(|r: &Req| CKey(r.key));
             if let Some(t) = scn.ttl_ms {
                 b = b.ttl(if t == u64::MAX { Duration::MAX } else { Duration::from_millis(t) });
             }
-            let layer = b.build();
-            let base = layer.layer(SimInner::new(0));
+            let Some(base) = build_guarded("C10.miss_calls_inner", &format!("a cache with max_size={} policy {}", count(scn.max_size), scn.policy), || b.build().layer(SimInner::new(0))) else {
+                return vec![];
+            };
             let c1 = base.clone();
             for (i, o) in scn.ops.iter().enumerate() {
                 at += o.gap_ms;
@@ -296,7 +301,7 @@ pub fn run(s: &Scn, ctx: &mut RunCtx) -> RunOutput {
     let rep = run_sim(cfg, &mut ctx.chooser, setup, Hooks { step: &mut step, idle: &mut idle });
     let log = world::with(|w| std::mem::take(&mut w.log));
     let calls = inner_calls(&log);
-    let m = M { policy: s.policy, cap: s.max_size as usize, ttl: s.ttl_ms.filter(|t| *t != u64::MAX).map(|t| t * 1000) };
+    let m = M { policy: s.policy, cap: count(s.max_size), ttl: s.ttl_ms.filter(|t| *t != u64::MAX).map(|t| t * 1000) };
     let mut states: Vec<St> = vec![St { ents: vec![], tick: 0 }];
     let mut hit_flag: std::collections::HashMap<u32, bool> = Default::default();
     let mut hits = 0;
